@@ -122,6 +122,77 @@ def run_c13(F, rep):
 def run_c14(F, rep):
     _report(F, rep, "C14.cast", lambda o: bool(C14_OWNERS.search(o)), "string / number built-ins", 10)
     float_guard_boundaries(F, rep, "C14.cast")
+    int_helper_boundaries(F, rep, "C14.cast")
+
+
+_INT = re.compile(r"^([iu])(8|16|32|64|128|size)$")
+
+
+def _int_range(ty):
+    m = _INT.match(ty)
+    bits = 64 if m.group(2) == "size" else int(m.group(2))
+    return (-(1 << (bits - 1)), (1 << (bits - 1)) - 1) if m.group(1) == "i" else (0, (1 << bits) - 1)
+
+
+def int_helper_boundaries(F, rep, rule="C14.cast"):
+    """A helper that takes a program number as an integer parameter and narrows it with `as` (which keeps the low bits) is evaluated abstractly on
+    the boundary values of the parameter's type and of each type it casts to: the cast must never be reached with a value the target cannot
+    hold (the guard in front of it has to cover both ends).  Helpers are found from their call sites: a non-closure function of the
+    interpreter crate with an integer parameter that some caller fills with a value derived from a Primitive."""
+    import absint
+    from absint import Interp, Int, Opaque
+    bc = F.crates["bytecode"].fns
+    helpers = {}
+    ncalls = 0
+    for f in bc:
+        for c in f.calls():
+            g = F.fn(c.callee())
+            if g is None or g.kind == "Closure" or g not in bc and g.path.split("::")[0].strip("<&") != "bytecode":
+                continue
+            ips = [i for i in range(1, g.argc + 1) if _INT.match(g.locals[i].strip())]
+            if not ips:
+                continue
+            casts = []
+            for bi, si, dst, rv, st in g.assigns():
+                if rv.get("cast") == "IntToInt":
+                    src = rv.get("from") or rv.get("oty")
+                    to = rv.get("ty") or rv.get("to")
+                    if lossy("IntToInt", src, to) and _INT.match(to or ""):
+                        casts.append((to, st.get("us") or st.get("sp")))
+            ncalls += 1
+            if not casts:
+                continue
+            for i in ips:
+                if i - 1 < len(c.args):
+                    l = op_local(c.args[i - 1])
+                    if l is not None and _panics.taint(f, l):
+                        helpers.setdefault(g.path, (g, set(), casts))[1].add(i)
+    rep.floor(rule + " calls of interpreter functions with integer parameters inspected", ncalls, 5)
+    for path, (g, params, casts) in sorted(helpers.items()):
+        bad, undec, n = [], [], 0
+        for i in sorted(params):
+            pty = g.locals[i].strip()
+            plo, phi = _int_range(pty)
+            vals = {plo, plo + 1, -1, 0, 1, phi - 1, phi}
+            for to, _sp in casts:
+                lo, hi = _int_range(to)
+                vals |= {lo - 1, lo, hi, hi + 1, hi + 3}
+            for v in sorted(x for x in vals if plo <= x <= phi):
+                it = Interp(F, models=dict(absint.DEFAULT_MODELS), max_depth=5, max_paths=64)
+                args = [Int(v, pty) if k == i else Opaque("arg%d" % k) for k in range(1, g.argc + 1)]
+                try:
+                    outs = it.run(g, args)
+                except (ValueError, KeyError):
+                    outs = []
+                n += 1
+                wraps = [e for o in outs for e in o.events if e[0] == "i2i"]
+                if wraps:
+                    bad.append("%d reaches `as %s` and becomes %d" % (v, wraps[0][2], (wraps[0][1] - _int_range(wraps[0][2])[0]) % (_int_range(wraps[0][2])[1] - _int_range(wraps[0][2])[0] + 1) + _int_range(wraps[0][2])[0]))
+                elif it.exhausted or not outs:
+                    undec.append("%d: not evaluated" % v)
+        rep.ob(rule, "%s narrows its integer parameter with `as` only when the target type can hold it (boundary values)" % mir.short(path),
+               "violated" if bad else ("undecided" if undec else "ok"), "; ".join((bad or undec)[:4]) or "%d boundary evaluations" % n, casts[0][1], fn=path,
+               key="%s|int-range|%s" % (rule, mir.short(path)))
 
 
 def float_guard_boundaries(F, rep, rule="C14.cast"):
